@@ -67,6 +67,7 @@ func main() {
 		histories(root, selfNoop)
 		openGrid(root, selfNoop)
 		renameGrid(root, selfNoop)
+		slashGrid(root)
 	}()
 	wg.Wait()
 	rep.Write(orc)
